@@ -6,7 +6,7 @@ use std::cell::RefCell;
 use std::io::Write;
 use std::panic::{catch_unwind, AssertUnwindSafe};
 use std::rc::Rc;
-use tsrun::{api, Interpreter, JsString};
+use tsrun::{api, Interpreter};
 
 fn one(req: &Value) -> Value {
     let log = Rc::new(RefCell::new(Vec::new()));
@@ -20,7 +20,10 @@ fn one(req: &Value) -> Value {
         Ok(v) => v,
         Err(e) => return json!({"error": crate::run::error_class(&e).0}),
     };
-    interp.env_define(JsString::from("cfg"), cfg.clone(), false);
+    interp
+        .global
+        .borrow_mut()
+        .set_property(tsrun::value::PropertyKey::from_name("cfg"), cfg.clone());
     let script = req.get("script").and_then(|v| v.as_str()).unwrap_or("0");
     let o = crate::run::run_program(&mut interp, script, None, 5_000_000, false);
     let back = match tsrun::js_value_to_json(&cfg) {
